@@ -598,3 +598,56 @@ CONTRACTS[CI + 'CliffordGate.forward#map_local_state'] = dict(
               'forall(k, 0, rows(self.forward_map.gs), self.forward_map.ps[k] == 0 or self.forward_map.ps[k] == 2)'],
     ensures=_inv_obj_post, modifies=['obj.gs', 'obj.ps'], returns='=obj',
 )
+
+# ------------------------------------------------------------------ C08: StabilizerState.entropy(region given as a boolean mask)
+_aG = 'RowSlice(self.gs, self.r, cols(self.gs) // 2)'
+_uc = CONTRACTS_U = None
+from contracts import utils_contracts as _UC
+_ent = [e.replace('rows(gs)', '(cols(self.gs) // 2 - self.r)').replace('cols(gs)', 'cols(self.gs)').replace('(gs,', '(%s,' % _aG).replace('subsys', 'subsys')
+        for e in _UC.CONTRACTS['pyclifford/utils.py::stabilizer_entropy']['ensures']]
+CONTRACTS[ST + 'StabilizerState.entropy#mask'] = dict(
+    params=[('self', STATE), ('subsys', 'bool1')],
+    requires=['cols(self.gs) % 2 == 0', 'rows(self.gs) == cols(self.gs)', '0 <= self.r <= cols(self.gs) // 2', 'bits2(self.gs)',
+              'len(self.ps) == rows(self.gs)', 'len(subsys) == cols(self.gs) // 2', 'len(subsys) >= 1'],
+    ensures=[e.replace('mask', 'subsys') for e in _ent],
+    modifies=[], returns='int',
+)
+CONTRACTS[ST + 'StabilizerState.entropy#qubits'] = dict(
+    params=[('self', STATE), ('subsys', 'int1')],          # region as a sequence of qubit indices
+    requires=['cols(self.gs) % 2 == 0', 'rows(self.gs) == cols(self.gs)', '0 <= self.r <= cols(self.gs) // 2', 'bits2(self.gs)',
+              'len(self.ps) == rows(self.gs)', 'len(subsys) >= 1', 'forall(k, 0, len(subsys), 0 <= subsys[k] < cols(self.gs) // 2)'],
+    ensures=[e.replace('len(mask)', '(cols(self.gs) // 2)').replace('mask', 'QMask(old(subsys), len(old(subsys)), cols(self.gs) // 2)') for e in _ent],   # the code rebinds `subsys`
+    modifies=[], returns='int',
+)
+
+# ------------------------------------------------------------------ C02 / C03: the same operations on a single Pauli operator
+_p_rot = ('implies(AcqSum(generator.g, old(self.g), len(generator.g) // 2) % 2 == 1, '
+          'forall(c, 0, len(generator.g), self.g[c] == (old(self.g)[c] + generator.g[c]) % 2) and '
+          'self.p == (old(self.p) + generator.p + 1 + IpowSum(old(self.g), generator.g, len(generator.g) // 2)) % 4) and '
+          'implies(AcqSum(generator.g, old(self.g), len(generator.g) // 2) % 2 == 0, '
+          'forall(c, 0, len(generator.g), self.g[c] == old(self.g)[c]) and self.p == old(self.p))')
+CONTRACTS[PA + 'Pauli.rotate_by#nomask'] = dict(
+    params=[('self', PAULI), ('generator', dict(PAULI, exact=False)), ('mask', 'none')], defaults={'mask': None},
+    requires=['len(generator.g) == len(self.g)', 'bits1(generator.g)', 'bits1(self.g)'],
+    ensures=[_p_rot, 'len(self.g) == len(old(self.g))', 'same_loc(result, self)'],
+    modifies=['self.g'], modifies_scalar=['self.p'], returns='=self',
+)
+CONTRACTS[PA + 'Pauli.transform_by#nomask'] = dict(
+    params=[('self', PAULI), ('clifford_map', CMAP), ('mask', 'none')], defaults={'mask': None},
+    requires=['len(self.g) == rows(clifford_map.gs)', 'len(clifford_map.ps) == rows(clifford_map.gs)', 'bits2(clifford_map.gs)'],
+    ensures=['len(self.g) == cols(clifford_map.gs)',
+             'forall(c, 0, cols(clifford_map.gs), self.g[c] == OrdG(old(self.g), clifford_map.gs, rows(clifford_map.gs), c))',
+             'self.p == (old(self.p) + XZSum(old(self.g), len(old(self.g)) // 2) % 4 '
+             '+ OrdP(old(self.g), clifford_map.gs, clifford_map.ps, rows(clifford_map.gs), cols(clifford_map.gs) // 2)) % 4',
+             'same_loc(result, self)'],
+    modifies=['self.g'], modifies_scalar=['self.p'], returns='=self',
+)
+
+# ------------------------------------------------------------------ C16: a random Pauli map is a valid map with Hermitian signs, whatever is drawn
+CONTRACTS[ST + 'random_pauli_map'] = dict(
+    params=[('N', 'int')], requires=['N >= 0'],
+    ensures=['rows(result.gs) == 2 * N', 'cols(result.gs) == 2 * N', 'len(result.ps) == 2 * N', 'bits2(result.gs)', 'gram_map(result.gs, N)',
+             'forall(k, 0, 2 * N, result.ps[k] == 0 or result.ps[k] == 2)',
+             'forall(a, 0, 2 * N, forall(c, 0, 2 * N, implies(c != 2 * (a // 2) and c != 2 * (a // 2) + 1, result.gs[a][c] == 0)))'],
+    modifies=[], returns=CMAP,
+)
